@@ -216,7 +216,7 @@ impl Prop for C01 {
         (dspec_strategy(maxc - 1, 2), ring, ht_strategy(), any::<bool>(), any::<u8>(), route)
             .prop_map(|(d, ring, (h, t), reduced, threads, route)| Case { d, ring, h, t, reduced, threads, route }).boxed()
     }
-    fn cases(tier: Tier) -> u32 { tier.pick(5_000, 100_000) }
+    fn cases(tier: Tier) -> u32 { tier.pick(5_000, 40_000) }
     fn shards(_: Tier) -> usize { 8 }
     fn replay_repeats() -> usize { 5 }
     fn run(case: &Case, ctx: &Ctx) -> Outcome { to_outcome(run_case(case, ctx.tier)) }
